@@ -206,7 +206,9 @@ def mkCompiled (vcount : Nat) (fs : List FLine) (dv uv : List (Nat × Nat)) : Op
     some {
       vcount := vcount, errTy := cError, dmap := dv, umap := uv,
       lits := (inc.filter (·.group == "literal")).map fun f => (f.out.headD 0, litValue f),
-      statics := (inc.filter (·.group == "static")).map toSNode,
+      -- the static sequence: literal values and static injectors in listed order
+      statics := (inc.filter fun f => f.group == "static" || f.group == "literal").map fun f =>
+        if f.group == "literal" then { id := f.id, lit := some (litValue f), outs := [f.out.headD 0] } else toSNode f,
       run := (inc.filter (·.group == "run")).map toNode,
       fin := toNode fin,
       invokeOuts := inv.out, invokeRecv := remap inv.urm inv.recv,
